@@ -301,9 +301,18 @@ fn train_prefixes<T: NumberLike>(
 
   huffman_encoding::make_huffman_code(&mut optimized_prefs);
 
-  let prefixes = optimized_prefs.iter()
+  let mut prefixes = optimized_prefs.iter()
     .map(|wp| wp.prefix.clone())
-    .collect();
+    .collect::<Vec<_>>();
+  if flags.use_gcds && gcd_utils::common_gcd_for_chunk_meta(&prefixes).is_none() {
+    // each prefix will store its own GCD; fall back to a GCD of 1 in the
+    // rare case where the GCD doesn't fit in the bits the format allots
+    for p in &mut prefixes {
+      if !gcd_utils::gcd_fits_in_prefix_meta(p) {
+        p.gcd = T::Unsigned::ONE;
+      }
+    }
+  }
   Ok(prefixes)
 }
 
